@@ -26,7 +26,7 @@ ATOMS_PLAIN = ("H", "C", "DR", "DRESP", "PR", "PRESP", "ST", "BAD", "PRE", "ENC"
 ATOMS_NOISE = ("NH", "NHE", "H", "C", "DR", "DRESP", "ST", "BAD", "PRE", "TAMPER")
 PAIRS = (
     ("H", "C"), ("ST", "ST"), ("ST", "PR"), ("DR", "ST"), ("DR", "PR"), ("DR", "H"), ("DR", "DR"), ("BAD", "ST"), ("BAD", "PR"), ("PRE", "ST"), ("ENC", "ST"),
-    ("C", "DR"), ("H", "DR"), ("H", "BAD"), ("NH", "DR"), ("NH", "BAD"), ("TAMPER", "ST"), ("DRESP", "ST"), ("DRESP", "PR"),
+    ("C", "DR"), ("H", "DR"), ("H", "BAD"), ("NH", "DR"), ("NH", "BAD"), ("TAMPER", "ST"), ("DRESP", "ST"), ("DRESP", "PR"), ("DRESP", "DRESP"),
 )
 
 
@@ -103,6 +103,15 @@ class C08Oracle(Oracle):
         v = list(w.c08)  # type: ignore[attr-defined]
         if w.state() == "CLOSED" and not w.loop.busy():
             v += self.audit(w, "after-close")
+        if w.state() != "CLOSED" and not w.loop.busy():
+            # disconnect() closes: once a disconnect() call has returned or raised (not: was cancelled by its caller), the connection
+            # it was called on is closed - whatever the device answered, however often it was called
+            for name in ("disc", "disc2"):
+                r = w.results.get(name)
+                if r is not None and r[0] != "cancelled" and f"cancel:{name}" not in w.misuse:
+                    v.append(f"C08:open-after-disconnect:{name} ended {w.outcome(name)} but the connection still reads {w.state()} "
+                             f"(sockets open: {[s.fd for s in w.net.sockets if not s.closed]})")
+                    break
         return v
 
     def finish(self, w: LifeWorld) -> list[str]:
@@ -121,7 +130,7 @@ def factory(noise: bool, seed: str) -> LifeHarness:
         seed=seed,
         atoms=ATOMS_NOISE if noise else ATOMS_PLAIN,
         pairs=PAIRS,
-        user=("start", "finish", "disc", "force", "cancel"),
+        user=("start", "finish", "disc", "disc2", "force", "cancel"),
         misuse=False,
         oracles=(C08Oracle(),),
         etimedout=True,
